@@ -1,6 +1,7 @@
 package props
 
 import (
+	"bytes"
 	"fmt"
 	"io/fs"
 	"reflect"
@@ -9,6 +10,7 @@ import (
 
 	"github.com/goreleaser/nfpm/v2"
 	"github.com/goreleaser/nfpm/v2/files"
+	"gopkg.in/yaml.v3"
 	"verif/harness/internal/report"
 	"verif/harness/internal/rng"
 	"verif/harness/internal/wire"
@@ -295,6 +297,64 @@ func overrideCase(c *Ctx, fam *report.Family, cfg *nfpm.Config, in map[string]an
 	}
 }
 
+// c13ConfigRoute: the same configuration through a configuration file.
+func c13ConfigRoute(c *Ctx, fam *report.Family, mk func() *nfpm.Config, in map[string]any) {
+	doc, err := yaml.Marshal(mk())
+	if err != nil {
+		c.Rep.Note("config-route: marshal: %v", err)
+		return
+	}
+	parsed, perr := nfpm.Parse(bytes.NewReader(doc))
+	key := fmt.Sprint(in)
+	if perr != nil {
+		fam.Eval(key, false)
+		fam.Count("parse-error")
+		return
+	}
+	fam.Eval(key, true)
+	fam.Count("parsed")
+	// what the document states: its plain decoding (leaves without a configuration key, such as the signing
+	// passphrases that only the environment supplies, are not in it)
+	want := &nfpm.Config{}
+	if err := yaml.Unmarshal(doc, want); err != nil {
+		c.Rep.Note("config-route: plain decoding: %v", err)
+		return
+	}
+	nfpm.WithDefaults(&want.Info)
+	in2 := map[string]any{"document": string(doc)}
+	for k, v := range in {
+		in2[k] = v
+	}
+	noPass := func(ls []leaf) []leaf {
+		var out []leaf
+		for _, l := range ls {
+			if !strings.HasSuffix(l.Path, "KeyPassphrase") {
+				out = append(out, l)
+			}
+		}
+		return out
+	}
+	if g, w := showLeaves(noPass(leavesOf(&parsed.Info.Overridables))), showLeaves(noPass(leavesOf(&want.Info.Overridables))); g != w {
+		d := firstDiff(g, w)
+		c.Rep.Find(report.Finding{Property: "C13", Family: fam.Name, Shape: "config-route:base-settings-differ-from-document", What: "base settings after nfpm.Parse: " + d[0] + "; the document states " + d[1], Input: in2})
+	}
+	for _, f := range Formats {
+		wb, pb := want.Overrides[f], parsed.Overrides[f]
+		if (wb == nil) != (pb == nil) {
+			c.Rep.Find(report.Finding{Property: "C13", Family: fam.Name, Shape: "config-route:override-block-presence-differs", What: fmt.Sprintf("override block %s: document has one = %v, parsed configuration has one = %v", f, wb != nil, pb != nil), Input: in2})
+			continue
+		}
+		if wb == nil {
+			continue
+		}
+		if g, w := showLeaves(noPass(leavesOf(pb))), showLeaves(noPass(leavesOf(wb))); g != w {
+			d := firstDiff(g, w)
+			c.Rep.Find(report.Finding{Property: "C13", Family: fam.Name, Shape: "config-route:override-block-differs-from-document", What: "override block " + f + " after nfpm.Parse: " + d[0] + "; the document states " + d[1], Input: in2})
+		}
+	}
+	overrideCase(c, fam, &parsed, in2)
+}
+
 func canonLeavesAnswer(a string) string {
 	toks := strings.Fields(a)
 	var parts []string
@@ -357,21 +417,33 @@ func runC13(c *Ctx) error {
 	paths := leafGoPaths()
 	fam := c.Rep.Family("override-matrix", fmt.Sprintf("exhaustive: every overridable leaf (%d Go field paths of nfpm.Overridables incl. nested format blocks, scripts, umask, maps, *string) x every format block x {base+override set, only override, only base}: Config.Get for all five formats twice (forward and reverse order) compared with the model merge of the base as it was before any Get; base settings dumped before/after; non-trivial = the format has an override block", len(paths)))
 	fam.Exhaustive = true
+	famY := c.Rep.Family("override-matrix-config-route", "exhaustive: the configurations of override-matrix written as a YAML document (yaml.v3 over nfpm.Config's own tags) and read back with nfpm.Parse: every leaf of the base and of every override block of the parsed configuration vs the leaf the document states (after nfpm.WithDefaults), then the merge law on the parsed configuration; non-trivial = the document parses")
+	famY.Exhaustive = true
 	for _, p := range paths {
 		for _, f := range Formats {
 			for variant := 0; variant < 3; variant++ {
-				cfg := &nfpm.Config{Info: nfpm.Info{Name: "p", Arch: "amd64", Version: "1.0.0"}, Overrides: map[string]*nfpm.Overridables{}}
-				ov := &nfpm.Overridables{}
-				if variant != 1 {
-					if !setLeaf(&cfg.Info.Overridables, p, "base") {
-						continue
+				p, f, variant := p, f, variant
+				mk := func() *nfpm.Config {
+					cfg := &nfpm.Config{Info: nfpm.Info{Name: "p", Arch: "amd64", Version: "1.0.0"}, Overrides: map[string]*nfpm.Overridables{}}
+					ov := &nfpm.Overridables{}
+					if variant != 1 {
+						if !setLeaf(&cfg.Info.Overridables, p, "base") {
+							return nil
+						}
 					}
+					if variant != 2 {
+						setLeaf(ov, p, "ov-"+f)
+					}
+					cfg.Overrides[f] = ov
+					return cfg
 				}
-				if variant != 2 {
-					setLeaf(ov, p, "ov-"+f)
+				cfg := mk()
+				if cfg == nil {
+					continue
 				}
-				cfg.Overrides[f] = ov
-				overrideCase(c, fam, cfg, map[string]any{"leaf": p, "block": f, "variant": []string{"base+override", "override-only", "base-only"}[variant]})
+				in := map[string]any{"leaf": p, "block": f, "variant": []string{"base+override", "override-only", "base-only"}[variant]}
+				overrideCase(c, fam, cfg, in)
+				c13ConfigRoute(c, famY, mk, in)
 			}
 		}
 	}
